@@ -1235,3 +1235,104 @@ func blockReachesOnlyVia(from, pred, phiBlock *ssa.BasicBlock) bool {
 	}
 	return false
 }
+
+// ---- R105: list-form expressions are decoded by their length and the operation is the first element ----
+
+func init() {
+	register(&Rule{ID: "R105", Name: "LIST-SHAPE", Floor: 3,
+		Text: "in every constructor of the root package that decodes a list-form expression (`l, ok := x.([]interface{})` under a test `len(l) == k`): the constant indexes at which l is read under that test are exactly 0..k-1 (a list of another length is malformed and must not be accepted), and the element handed to opIdentifier (the function name) is l[0]",
+		Run:  runR105})
+}
+
+func runR105(c *Ctx) {
+	p := c.P
+	for _, fn := range p.FuncsIn("") {
+		if fn.Parent() != nil {
+			continue
+		}
+		var list ssa.Value
+		eachInstr(fn, func(in ssa.Instruction) {
+			if ta, ok := in.(*ssa.TypeAssert); ok && ta.CommaOk {
+				if sl, isSl := ta.AssertedType.Underlying().(*types.Slice); isSl {
+					if _, isIf := sl.Elem().Underlying().(*types.Interface); isIf {
+						for _, r := range *ta.Referrers() {
+							if ex, ok := r.(*ssa.Extract); ok && ex.Index == 0 {
+								list = ex
+							}
+						}
+					}
+				}
+			}
+		})
+		if list == nil {
+			continue
+		}
+		// the length test
+		var k int64 = -1
+		eachInstr(fn, func(in ssa.Instruction) {
+			b, ok := in.(*ssa.BinOp)
+			if !ok || b.Op != token.EQL && b.Op != token.NEQ {
+				return
+			}
+			call, ok := b.X.(*ssa.Call)
+			if !ok || builtinName(call) != "len" || call.Call.Args[0] != list {
+				return
+			}
+			if v, isK := constInt(b.Y); isK && v > k {
+				k = v // several accepted lengths (2 or 3): the longest governs which elements may be read
+			}
+		})
+		if k < 0 {
+			continue
+		}
+		fnm := fname(fn)
+		used := map[int64]bool{}
+		opIdx := int64(-1)
+		opSeen := false
+		eachInstr(fn, func(in ssa.Instruction) {
+			ia, ok := in.(*ssa.IndexAddr)
+			if !ok || ia.X != list {
+				return
+			}
+			idx, isK := constInt(ia.Index)
+			if !isK {
+				return
+			}
+			used[idx] = true
+			for _, r := range *ia.Referrers() {
+				if ld, ok := r.(*ssa.UnOp); ok {
+					for _, r2 := range *ld.Referrers() {
+						if call, ok := r2.(*ssa.Call); ok {
+							if callee := call.Call.StaticCallee(); callee != nil && callee.Name() == "opIdentifier" {
+								opIdx, opSeen = idx, true
+							}
+						}
+					}
+				}
+			}
+		})
+		if len(used) == 0 {
+			continue
+		}
+		key := fnm + "|list shape"
+		var idxs []int
+		for i := range used {
+			idxs = append(idxs, int(i))
+		}
+		sort.Ints(idxs)
+		okShape := int64(len(idxs)) == k
+		for i, v := range idxs {
+			if v != i {
+				okShape = false
+			}
+		}
+		switch {
+		case !okShape:
+			c.bad(key, p.pos(fn.Pos()), fmt.Sprintf("lists of length %d are accepted but the elements read are %v: a list of the wrong length is taken for a well-formed expression, or an element is ignored", k, idxs))
+		case opSeen && opIdx != 0:
+			c.bad(key, p.pos(fn.Pos()), fmt.Sprintf("the operation name is taken from element %d of the list; it is the first element", opIdx))
+		default:
+			c.ok(key, p.pos(fn.Pos()), fmt.Sprintf("length %d, elements 0..%d read, operation from element 0", k, k-1))
+		}
+	}
+}
